@@ -24,6 +24,6 @@ for r in surv:
     groups[c[0]].append((key, r, c[1]))
 for g in sorted(groups):
     print("\n%s (%d)" % (g, len(groups[g])))
-    for key, r, why in sorted(groups[g]):
+    for key, r, why in sorted(groups[g], key=lambda t: (t[0], t[1]["new"])):
         print("  - `%s`  `%s` => `%s`%s%s" % (key, r["old"].strip()[:70], r["new"].strip()[:70], (" - " + why) if why else "",
                                              "  [drift reported by %s]" % ",".join(r["drift_reported_by"]) if r.get("drift_reported_by") else ""))
